@@ -45,7 +45,15 @@ func Canon(text string) (canon string, ok bool, diag string) {
 	}
 	so, se, code, err := mbt.Tool(nil, 60*time.Second, "llvm-dis", "-o", "-", bc)
 	if err != nil || code != 0 {
-		mbt.Infra("llvm-dis failed on a module llvm-as accepted: %v %s", err, se)
+		if d := os.Getenv("VERIF_DEBUG_DIR"); d != "" {
+			os.WriteFile(filepath.Join(d, "llvm-dis-failed.ll"), []byte(text), 0o644)
+		}
+		if err != nil {
+			mbt.Infra("llvm-dis: %v", err)
+		}
+		// a defect of LLVM itself (e.g. a label-typed call argument: written to bitcode, "Invalid record" when read):
+		// the text is not arbitrated -- callers count it as a discard, more than 2 % discards are exit 2
+		return "", false, "llvm-dis fails on the bitcode llvm-as wrote: " + strings.TrimSpace(string(se))
 	}
 	var out []string
 	for _, l := range strings.Split(string(so), "\n") {
